@@ -48,12 +48,13 @@ func runC18(c *Ctx) {
 	resp := gd + "#0"
 	PD := paramWhere(ENV, isNamed("ocispec.Descriptor"))
 	PO := paramWhere(ENV, hasField("SignatureMediaType"))
+	// The checks may be written in ENV itself or in helpers it calls: the anchors are looked for on ENV's static call tree
+	// and rendered in ENV's frame (helper parameters replaced by the arguments of the helper's one call site), which is how
+	// the gate engine spells the helper's facts on ENV's exits. The obligations themselves are unchanged: every
+	// success-capable exit of ENV must carry the fact.
+	fr := newC18Frame(w, ENV)
 	var parse, verify *ssa.Call
-	for _, ci := range allCalls(ENV) {
-		call, ok := ci.(*ssa.Call)
-		if !ok {
-			continue
-		}
+	for _, call := range fr.calls() {
 		switch calleeName(call) {
 		case "core/signature.ParseEnvelope":
 			parse = call
@@ -66,7 +67,7 @@ func runC18(c *Ctx) {
 		return
 	}
 	pt, _ := w.constString("internal/envelope", "MediaTypePayloadV1")
-	vd := desc(verify)
+	vd := fr.val(verify)
 	content := vd + "#0.Payload.Content"
 	c.requireOnExits("envelope", ENV, s.Exits, []Need{
 		{Name: "plugin-error", What: "GenerateEnvelope err == nil", Subs: []string{"EQ(" + gd + "#err,nil)"}},
@@ -79,10 +80,10 @@ func runC18(c *Ctx) {
 		{Name: "annotations-loop-completed", What: "the preservation loop over the requested descriptor's annotations ran to completion", Subs: []string{"F(rangeok(" + PD + ".Annotations))"}},
 	})
 	// the signed payload is decoded into a fresh variable, not over the request's payload
-	for _, ci := range findCalls(ENV, "encoding/json.Unmarshal") {
-		cc := ci.(*ssa.Call)
-		if desc(cc.Call.Args[0]) == content {
-			fresh, why := freshDecodeTarget(w.Info(ENV), cc)
+	for _, cc := range fr.calls() {
+		if calleeName(cc) == "encoding/json.Unmarshal" && fr.val(cc.Call.Args[0]) == content {
+			// freshness is a fact of the function that owns the decode target (a helper's local is fresh per call)
+			fresh, why := freshDecodeTarget(w.Info(cc.Parent()), cc)
 			c.Check(fresh, "envelope/payload-decode-target-fresh", "the payload the plugin signed is decoded into a fresh variable: members the plugin left out are not filled in from the request before the comparison", w.InstrPos(cc), why)
 		}
 	}
@@ -100,21 +101,21 @@ func runC18(c *Ctx) {
 	c.Check(okReq, "envelope/request-type", "the request asks for the caller's signature media type", w.FnPos(ENV), "")
 	// unknown-field scan on the verified bytes, result must be empty
 	var scan *ssa.Call
-	for _, ci := range allCalls(ENV) {
-		call, ok := ci.(*ssa.Call)
-		if !ok {
-			continue
-		}
+	for _, call := range fr.calls() {
 		g := staticCallee(call)
-		if g != nil && w.IsProductFn(g) && len(call.Call.Args) == 1 && desc(call.Call.Args[0]) == content && strings.HasPrefix(call.Type().String(), "[]string") {
+		if g != nil && w.IsProductFn(g) && len(call.Call.Args) == 1 && fr.val(call.Call.Args[0]) == content && strings.HasPrefix(call.Type().String(), "[]string") {
 			scan = call
 		}
+	}
+	scanD := "?"
+	if scan != nil {
+		scanD = fr.val(scan)
 	}
 	if scan == nil {
 		c.Bad("envelope/unknown-fields", "the verified payload bytes are scanned for unknown fields", w.FnPos(ENV), "no scan of the verified payload content")
 	} else {
 		c.requireOnExits("envelope", ENV, s.Exits, []Need{
-			{Name: "unknown-fields", What: "the unknown-field scan of the verified payload bytes is empty", Alt: [][]string{{"EQ(len(" + desc(scan) + "),const:0)"}, {"LE(len(" + desc(scan) + "),const:0)"}}},
+			{Name: "unknown-fields", What: "the unknown-field scan of the verified payload bytes is empty", Alt: [][]string{{"EQ(len(" + scanD + "),const:0)"}, {"LE(len(" + scanD + "),const:0)"}}},
 		})
 		c18Scan(c, staticCallee(scan))
 	}
@@ -141,13 +142,33 @@ func runC18(c *Ctx) {
 			g := w.Info(ENV).GuardsOf(st)
 			_, g1 := hasLabel(g, "EQ("+vd+"#err,nil)")
 			_, g2 := hasLabel(g, "T(call:oras/content.Equal(")
-			_, g3 := hasLabel(g, "EQ(len("+func() string {
-				if scan != nil {
-					return desc(scan)
-				}
-				return "?"
-			}()+"),const:0)")
+			_, g3 := hasLabel(g, "EQ(len("+scanD+"),const:0)")
 			c.Check(g1 && g2 && g3, "envelope/state-after-checks/"+fieldName(fa.X.Type(), fa.Field), "plugin output is stored in the signer only after the envelope was verified and matched against the request", w.InstrPos(st), fmt.Sprintf("verify=%v descriptor=%v unknown-fields=%v", g1, g2, g3))
+		}
+	}
+	// the same for a store written in a helper of ENV (a setter): the value stored is plugin output in ENV's frame, the object
+	// written is not a local of the helper; the facts are those on the way to the store inside the helper plus those on
+	// the way to the helper's call site(s) up to ENV
+	for _, f := range fr.tree {
+		if f == ENV || f.Parent() != nil {
+			continue
+		}
+		for _, b := range f.Blocks {
+			for _, in := range b.Instrs {
+				st, ok := in.(*ssa.Store)
+				if !ok {
+					continue
+				}
+				fa, ok := st.Addr.(*ssa.FieldAddr)
+				if !ok || !strings.HasPrefix(fr.val(st.Val), resp) || c18LocalObject(fa.X) {
+					continue
+				}
+				g := fr.guards(st)
+				_, g1 := hasLabel(g, "EQ("+vd+"#err,nil)")
+				_, g2 := hasLabel(g, "T(call:oras/content.Equal(")
+				_, g3 := hasLabel(g, "EQ(len("+scanD+"),const:0)")
+				c.Check(g1 && g2 && g3, "envelope/state-after-checks/"+fieldName(fa.X.Type(), fa.Field), "plugin output is stored in the signer only after the envelope was verified and matched against the request", w.InstrPos(st), fmt.Sprintf("(in helper %s) verify=%v descriptor=%v unknown-fields=%v", fnName(f), g1, g2, g3))
+			}
 		}
 	}
 	// the request's payload, key id and payload type
@@ -164,15 +185,20 @@ func runC18(c *Ctx) {
 	okPay := strings.HasPrefix(reqF["Payload"], "call:encoding/json.Marshal(") && strings.HasSuffix(reqF["Payload"], "#0") && reqF["KeyID"] == "param:"+ENV.Params[0].Name()+".keyID" && reqF["PayloadType"] == fmt.Sprintf("const:%q", pt)
 	if okPay {
 		// the marshalled value is the payload built from the requested descriptor
+		// (the marshalling may sit in a helper: the bytes put into the request are result #0 of that very Marshal call, and the
+		// TargetArtifact stored into the marshalled object is, in ENV's frame, the requested descriptor)
 		okPay = false
-		for _, ci := range findCalls(ENV, "encoding/json.Marshal") {
-			if mi, ok := ci.Common().Args[0].(*ssa.MakeInterface); ok {
+		for _, mc := range fr.calls() {
+			if calleeName(mc) != "encoding/json.Marshal" || fr.str(mc.Parent(), res(mc, 0)) != reqF["Payload"] {
+				continue
+			}
+			if mi, ok := mc.Call.Args[0].(*ssa.MakeInterface); ok {
 				if strings.Contains(desc(mi.X), "ngo/internal/envelope.Payload") {
-					for _, b := range ENV.Blocks {
+					for _, b := range mc.Parent().Blocks {
 						for _, in := range b.Instrs {
 							if st, ok := in.(*ssa.Store); ok {
-								if fa, ok := st.Addr.(*ssa.FieldAddr); ok && namedOf(fa.X.Type()) == "ngo/internal/envelope.Payload" && fieldName(fa.X.Type(), fa.Field) == "TargetArtifact" {
-									d := desc(st.Val)
+								if fa, ok := st.Addr.(*ssa.FieldAddr); ok && namedOf(fa.X.Type()) == "ngo/internal/envelope.Payload" && fieldName(fa.X.Type(), fa.Field) == "TargetArtifact" && desc(fa.X) == desc(mi.X) {
+									d := fr.val(st.Val)
 									if d == PD || d == "call:ngo/internal/envelope.SanitizeTargetArtifact("+PD+")" {
 										okPay = true
 									}
@@ -186,7 +212,7 @@ func runC18(c *Ctx) {
 	}
 	c.Check(okPay, "envelope/request-payload", "the plugin is asked to sign the payload built from the requested descriptor, with the signer's key id and the v1 payload type", w.FnPos(ENV), fmt.Sprintf("request fields: %v", reqF))
 	// the annotation-preservation function
-	c18Subset(c, ENV, PD)
+	c18Subset(c, ENV, PD, fr)
 	c18Raw(c)
 	c18Dispatch(c, ENV)
 	// (d) and (e)
@@ -197,7 +223,7 @@ func runC18(c *Ctx) {
 }
 
 // c18Subset: the function with the per-annotation loop.
-func c18Subset(c *Ctx, ENV *ssa.Function, PD string) {
+func c18Subset(c *Ctx, ENV *ssa.Function, PD string, fr *c18Frame) {
 	w := c.W
 	var SUB *ssa.Function
 	var sub *ssa.Call
@@ -223,29 +249,13 @@ func c18Subset(c *Ctx, ENV *ssa.Function, PD string) {
 			}
 		}
 	}
+	// the comparison may sit any number of helper levels below ENV: the argument that, rendered in ENV's frame, IS the
+	// requested descriptor (each level hands its parameter on unchanged; the frame is only defined along single call sites)
 	origIdx := -1
-	if sub != nil {
-		if sub.Parent() == ENV {
-			for i, a := range sub.Call.Args {
-				if desc(a) == PD {
-					origIdx = i
-				}
-			}
-		} else {
-			// through one wrapper level: ENV passes the requested descriptor to the wrapper, the wrapper passes that parameter on
-			for _, ci := range allCalls(ENV) {
-				if call, ok := ci.(*ssa.Call); ok && staticCallee(call) == sub.Parent() {
-					for i, a := range call.Call.Args {
-						if desc(a) == PD && i < len(sub.Parent().Params) {
-							pn := "param:" + sub.Parent().Params[i].Name()
-							for j, b := range sub.Call.Args {
-								if desc(b) == pn {
-									origIdx = j
-								}
-							}
-						}
-					}
-				}
+	if sub != nil && len(sub.Call.Args) == 2 {
+		for i, a := range sub.Call.Args {
+			if fr.val(a) == PD {
+				origIdx = i
 			}
 		}
 	}
@@ -325,6 +335,28 @@ func c18Scan(c *Ctx, SC *ssa.Function) {
 			if !names[s] {
 				okDel = false
 			}
+			continue
+		}
+		// maps.DeleteFunc(m, pred) removes exactly the keys pred accepts (library contract). With pred a membership test in
+		// a constant list that nothing can change, the keys removed are the elements of that list: they are held to the same
+		// condition as the keys of the delete statements.
+		if calleeName(call) == "maps.DeleteFunc" && len(call.Call.Args) == 2 {
+			list, isList := c18MembershipPredicate(w, call.Call.Args[1])
+			if !isList {
+				okDel = false
+				deleted = append(deleted, "<keys chosen by "+trunc(desc(call.Call.Args[1]), 80)+">")
+				continue
+			}
+			for _, s := range list {
+				deleted = append(deleted, s)
+				if s == "targetArtifact" {
+					outer = s
+					continue
+				}
+				if !names[s] {
+					okDel = false
+				}
+			}
 		}
 	}
 	c.Check(okDel && outer != "" && len(deleted) >= 5, "scan/removes-only-descriptor-fields", "the scan removes only the JSON names of ocispec.Descriptor fields (and targetArtifact at the outer level): everything else is reported", w.FnPos(SC), fmt.Sprintf("deleted keys: %v", deleted))
@@ -338,7 +370,44 @@ func c18Scan(c *Ctx, SC *ssa.Function) {
 			}
 		}
 	}
-	c.Check(okRet, "scan/reports-both-levels", "the scan reports the leftover keys of the descriptor level and of the payload level", w.FnPos(SC), "one level is not reported")
+	// the same on values: the slice returned contains every key of the map decoded from the argument (payload level) and
+	// every key of its "targetArtifact" member (descriptor level), whether gathered by a module helper or by
+	// slices.AppendSeq / slices.Collect over maps.Keys (library contract: all keys of the map, each once)
+	reported := map[ssa.Value]string{}
+	firstRet := true
+	for _, b := range SC.Blocks {
+		if r, ok := blockTerm(b).(*ssa.Return); ok && len(r.Results) == 1 {
+			rep := map[ssa.Value]string{}
+			c18ReportedMaps(w, r.Results[0], rep, 0)
+			if firstRet {
+				reported, firstRet = rep, false
+			} else {
+				for m := range reported {
+					if _, ok := rep[m]; !ok {
+						delete(reported, m)
+					}
+				}
+			}
+		}
+	}
+	var outerMap, innerMap ssa.Value
+	for _, ci := range findCalls(SC, "encoding/json.Unmarshal") {
+		if desc(ci.Common().Args[0]) == "param:"+SC.Params[0].Name() {
+			if al, ok := unwrap(ci.Common().Args[1]).(*ssa.Alloc); ok {
+				outerMap = al
+			}
+		}
+	}
+	for m := range reported {
+		if ta, ok := m.(*ssa.TypeAssert); ok && ta.CommaOk {
+			if lk, ok := ta.X.(*ssa.Lookup); ok && outerMap != nil && c18MapOrigin(lk.X) == outerMap && desc(lk.Index) == `const:"targetArtifact"` {
+				innerMap = m
+			}
+		}
+	}
+	_, outerReported := reported[outerMap]
+	byValue := outerMap != nil && innerMap != nil && outerReported
+	c.Check(okRet || byValue, "scan/reports-both-levels", "the scan reports the leftover keys of the descriptor level and of the payload level", w.FnPos(SC), "one level is not reported")
 	// the map scanned is decoded from the parameter
 	okSrc := false
 	for _, ci := range findCalls(SC, "encoding/json.Unmarshal") {
@@ -376,7 +445,10 @@ func c18Scan(c *Ctx, SC *ssa.Function) {
 		}
 	}
 	if nks == 0 {
-		c.Bad("scan/keyset-complete", "the key-set helper reports every key of the map", w.FnPos(SC), "no key-set loop found")
+		// no hand-written key-set loop: both levels are gathered by the library (maps.Keys yields every key of the map,
+		// slices.AppendSeq / slices.Collect keep every value of the sequence) — nothing in the module can filter a key
+		byLibrary := byValue && reported[outerMap] == "library" && reported[innerMap] == "library"
+		c.Check(byLibrary, "scan/keyset-complete", "the key-set helper reports every key of the map (or the keys are gathered by maps.Keys + slices.AppendSeq/Collect)", w.FnPos(SC), "no key-set loop found")
 	}
 	c.Check(okSrc, "scan/decodes-its-argument", "the scan decodes the bytes it was given", w.FnPos(SC), "")
 }
@@ -563,8 +635,17 @@ func c18Dispatch(c *Ctx, ENV *ssa.Function) {
 			_, capS := hasLabel(ex.Checked, "T(call:(*pfw/plugin.GetMetadataResponse).HasCapability(", fmt.Sprintf("const:%q))", sg))
 			_, capE := hasLabel(ex.Checked, "T(call:(*pfw/plugin.GetMetadataResponse).HasCapability(", fmt.Sprintf("const:%q))", eg))
 			if !((viaRaw && capS) || (viaEnv && capE)) {
-				ok = false
-				detail = fmt.Sprintf("exit %s: raw=%v(cap %v) envelope=%v(cap %v)", w.InstrPos(ex.Ret), viaRaw, capS, viaEnv, capE)
+				// not one exit per path: the exit may serve both paths through merged variables (`switch` that only assigns,
+				// one error test and one return after it). Decided on the values returned: see c18ReturnsCheckedCall.
+				paths := map[*ssa.Function]string{ENV: fmt.Sprintf("const:%q))", eg)}
+				if RAW != nil {
+					paths[RAW] = fmt.Sprintf("const:%q))", sg)
+				}
+				c.Evals++
+				if okV, why := c18ReturnsCheckedCall(w, fn, ex, paths); !okV {
+					ok = false
+					detail = fmt.Sprintf("exit %s: raw=%v(cap %v) envelope=%v(cap %v); by value: %s", w.InstrPos(ex.Ret), viaRaw, capS, viaEnv, capE, why)
+				}
 			}
 			if _, h := hasLabel(ex.Checked, "EQ(call:invoke:pfw/plugin.SignPlugin.GetMetadata(", "#err,nil)"); !h {
 				ok = false
